@@ -1659,3 +1659,147 @@ def _stream_parser(ctx, n):
         ctx.count("status.parse", tuple(c), True, real.split(":")[0] + (":" + real.split(":")[1] if real.startswith("err") else ""))
         if mo != real:
             ctx.disagree("status.parse", {"lines": [None if x is None else x.decode("latin-1") for x in c]}, mo, real, "parser")
+
+
+# ------------------------------------------------------------------------------------------------
+# corpus, run, search, replay
+
+def _run_corpus(ctx, sd, ex):
+    d = core.VERIF / "corpus" / PROP
+    if not d.exists():
+        return
+    wl, wm, ll, lm = [], [], [], []
+    for f in sorted(d.glob("*.json")):
+        c = json.loads(f.read_text())
+        case = expand(c["case"])
+        case.setdefault("tags", ["corpus:" + f.stem])
+        if case["path"] == "wire":
+            run_wire_case(ctx, sd, case, "corpus", wl, wm)
+        elif case["path"] == "local":
+            run_local_case(ctx, sd, case, ex, "corpus", ll, lm)
+    compare_wire_batch(ctx, wl, wm)
+    compare_local_batch(ctx, ll, lm)
+
+
+_FALLBACK_EX = {"local_set_prefix": "unable to set", "local_remove": "unable to remove", "local_atomic": "atomic push failed"}
+
+
+def _extract_or_fallback(ctx):
+    try:
+        return extract(core.REPO)
+    except Exception as e:      # already a broken obligation (translator); the oracle must still run
+        ctx.notes.append(f"translator failed in run(): {type(e).__name__}: {e}")
+        return dict(_FALLBACK_EX)
+
+
+def run(ctx: core.Ctx):
+    ex = _extract_or_fallback(ctx)
+    ctx.assumptions += [
+        "ref names of commands are direct refs (no symrefs such as HEAD among the commanded names); SHA-1 repositories",
+        "update hooks never decline with the literal message 'ok' (hypothesis HookSane of the theorems; the shell hook's "
+        "message always starts with 'update hook exited with status')",
+        "object-store behaviour (add_thin_pack / add_pack_data) is a parameter of the model: the ids a well-formed pack adds, or "
+        "the class of the exception raised, are observed on the real call and fed to the model (C04/C05 are about that step)",
+        "I/O failures of the ref container are explored through directory/file conflicts and injected KeyError only",
+        "two racing pushers are explored as one deterministic schedule (the second pusher acts between the first one's read of "
+        "the refs and its compare-and-swap); finer interleavings belong to C08",
+    ]
+    ctx.extra_cov["source_behaviour"] = {k: ex.get(k) for k in ("cas_result_used", "new_object_checked", "atomic_validates_old",
+                                                                "bad_ref_catches", "delete_check_client", "local_uses_cas_result",
+                                                                "local_precheck_get_peeled")}
+    ctx.extra_cov["fingerprints"] = ex.get("fingerprints")
+    sd = ServerDir(ctx.scratch / "srv")
+    _run_corpus(ctx, sd, ex)
+    _stream_wire(ctx, sd, ctx.budget(1200))
+    _stream_local(ctx, sd, ex, ctx.budget(500))
+    _stream_parser(ctx, ctx.budget(1500))
+    _stream_e2e(ctx, sd, ctx.budget(40), ctx.budget(8, mult=6))
+    _stream_git_push(ctx, sd, ctx.budget(5, mult=8))
+    ctx.extra_cov["third_party"] = {"git_server_pushes": ctx.streams.get("e2e.git-server", 0), "git_client_pushes": ctx.streams.get("e2e.git-push", 0)}
+
+
+def _neighbours(case: dict) -> list:
+    """Systematic variations of a wire case: every capability subset, and for each command every combination of
+    old in {matching, stale, zero} and new in {present, absent, delete}."""
+    out = []
+    base = json.loads(json.dumps(case))
+    base.pop("tags", None)
+    for mask in range(16):
+        c = json.loads(json.dumps(base))
+        c["caps"] = [cap for i, cap in enumerate(["report-status", "side-band-64k", "atomic", "delete-refs"]) if mask >> i & 1]
+        out.append(c)
+    for i, cmd in enumerate(base["cmds"]):
+        cur = current_of(base["state"], cmd[2])
+        for old in (cur or ZERO40.decode(), cid(3).decode() if cur != cid(3).decode() else cid(2).decode(), ZERO40.decode()):
+            for new in (cid(1).decode(), cid(7).decode(), ZERO40.decode()):
+                for caps in (["report-status"], ["report-status", "atomic"]):
+                    c = json.loads(json.dumps(base))
+                    c["cmds"][i] = [old, new, cmd[2]]
+                    c["caps"] = caps
+                    out.append(c)
+    return out
+
+
+def search(ctx: core.Ctx):
+    """Failing-input search after a broken obligation / correspondence: hit the direct oracle around the disagreeing
+    cases and with a large fresh sample on every path."""
+    ex = _extract_or_fallback(ctx)
+    sd = ServerDir(ctx.scratch / "srv-search")
+    lines, metas = [], []
+    seeds = [d["case"] for d in ctx.disagreements if isinstance(d.get("case"), dict) and d["case"].get("path") == "wire"][:8]
+    seeds += [expand(c) for c in FIXED_WIRE]
+    for sc in seeds:
+        for c in _neighbours(sc):
+            run_wire_case(ctx, sd, c, "search.wire", lines, metas)
+        if ctx.oracle_failures:
+            return
+    for dgr in ctx.disagreements:
+        c = dgr.get("case")
+        if isinstance(c, dict) and c.get("path") == "local":
+            run_local_case(ctx, sd, c, ex, "search.local", [], [])
+    if ctx.oracle_failures:
+        return
+    rng = ctx.rng
+    for _ in range(ctx.budget(3000, mult=4)):
+        run_wire_case(ctx, sd, gen_wire_case(rng), "search.wire", lines, metas)
+        if len(ctx.oracle_failures) > 3:
+            return
+    for _ in range(ctx.budget(1500, mult=4)):
+        run_local_case(ctx, sd, gen_local_case(rng), ex, "search.local", [], [])
+        if len(ctx.oracle_failures) > 3:
+            return
+    for _ in range(ctx.budget(60, mult=4)):
+        run_e2e_case(ctx, sd, gen_local_case(rng), "dulwich", "search.e2e")
+        if len(ctx.oracle_failures) > 3:
+            return
+
+
+def replay(ctx: core.Ctx, data: dict) -> int:
+    case = data.get("case", {})
+    case = case.get("case", case)
+    stream = data.get("stream", "replay")
+    ex = _extract_or_fallback(ctx)
+    sd = ServerDir(ctx.scratch / "srv-replay")
+    ctx.known = []          # a replay reports every failure, listed or not
+    if case.get("path") == "wire":
+        case = expand(case)
+        obs, pre, post = run_wire_case(ctx, sd, case, "replay", [], [])
+        print("replay wire: handler raised:", obs["raised"], "| client statuses:", obs["parsed"])
+        print("  refs before:", pre, "\n  refs after: ", post)
+    elif case.get("path") == "local" and stream.startswith(("e2e", "search.e2e")):
+        server = "git" if "git-server" in stream else "dulwich"
+        obs = run_e2e_case(ctx, sd, expand(case), server, "replay")
+        print(f"replay e2e ({server} server): client raised:", obs["raised"], "| ref_status:", obs["ref_status"])
+    elif case.get("path") == "local":
+        obs, post = run_local_case(ctx, sd, expand(case), ex, "replay", [], [])
+        print("replay local: raised:", obs["raised"], "| ref_status:", obs["ref_status"], "\n  refs after:", post)
+    else:
+        print("replay: this record has no re-runnable case (broken obligation or git-push sample); run ./check C06")
+        return 1 if data.get("kind") == "broken-obligation" else 0
+    for f in ctx.oracle_failures:
+        print("  FAIL:", f["class"], "-", f["what"])
+    if ctx.oracle_failures:
+        print(f"VIOLATION property={PROP} replay={data.get('_path', '<replayed>')}")
+        return 1
+    print("replay: property holds on this case")
+    return 0
